@@ -191,3 +191,44 @@ def correspondence_readout(ctx, n_cases, tag="ro"):
             bad.append(c)
     ctx.traces += len(cases)
     return bad
+
+
+def correspondence_alloc(ctx, n_cases, tag="alloc"):
+    """Base/GaussAlloc.add_mode / del_mode (hand model) against GaussianModes.add_mode(1) / del_mode(k)."""
+    rng = ctx.rng
+    cases = []
+    for _ in range(n_cases):
+        n = rng.randint(1, 4)
+        N, M, a = rand_state(rng, n, rng.random() < 0.5)
+        gm = GaussianModes(n)
+        gm.nmat = np.array(N, dtype=complex)
+        gm.mmat = np.array(M, dtype=complex)
+        gm.mean = np.array(a, dtype=complex)
+        if rng.random() < 0.5:
+            gm.add_mode(1)
+            term = "(add_mode NF %s)" % st_term(n, N, M, a)
+            kind = "add_mode"
+            nn = n + 1
+        else:
+            k = rng.randrange(n)
+            gm.del_mode(k)
+            term = "(del_mode NF %d %s)" % (k, st_term(n, N, M, a))
+            kind = "del_mode"
+            nn = n
+        cases.append((kind, n, term, st_term(nn, gm.nmat.tolist(), gm.mmat.tolist(), gm.mean.tolist())))
+    lines = ["From Coq Require Import List PrimFloat.", "Import ListNotations.",
+             "From SFV Require Import Base.Num Base.FloatInst Gen.GaussCirc Base.GaussAlloc.",
+             "Definition cases : list (st float * st float) := ["]
+    lines.append(";\n".join("(%s, %s)" % (c[2], c[3]) for c in cases) + "].")
+    lines.append("Eval vm_compute in map (fun c => st_close 0x1p-30%float (fst c) (snd c)) cases.")
+    ok, vals, raw = ctx.coq_eval("cases_%s" % tag, "\n".join(lines))
+    if not ok:
+        ctx.obligation("correspondence:alloc", False, raw)
+        return None
+    bad = []
+    for c, good in zip(cases, vals[0]):
+        ctx.case({"alloc": c[0], "n": c[1]}, nontrivial=c[1] >= 2, bucket="alloc-" + c[0])
+        if not good:
+            bad.append(c)
+    ctx.traces += len(cases)
+    return bad
